@@ -48,7 +48,10 @@ class Prop(BaseProp):
             res.see("mode", "small-tree-enumeration")
             res.count("enumerated_small_tree_runs")
         else:
-            tree = gen_tree(rng, max_depth=rng.choice([1, 2, 3, 4]), case_twins=rng.random() < 0.3, index_module=rng.random() < 0.1, symlinks=rng.random() < 0.3)
+            # (one tree in four has sub-directories that are symbolic links to other directories of the tree; they are
+            #  directories of the input only if input.follow_symlinks is on)
+            tree = gen_tree(rng, max_depth=rng.choice([1, 2, 3, 4]), case_twins=rng.random() < 0.3, index_module=rng.random() < 0.1, symlinks=rng.random() < 0.3,
+                            dirlinks=rng.random() < 0.25, follow=rng.random() < 0.5)
             recursive = rng.random() < 0.7
             auto = rng.random() < 0.6
         prefix = rng.choice([None, None, "Pfx", "my.pkg"])
@@ -79,9 +82,17 @@ class Prop(BaseProp):
                 argv.append("-r")
             if prefix:
                 argv += ["-p", prefix]
+            inset = {}
             if not auto:
+                inset["auto_exclude_directories_without_cmake"] = False
+            if tree.dirlinks:
+                res.count("runs_with_directory_symlinks")
+                res.see("directory_symlinks", "followed" if tree.follow else "not followed")
+                if tree.follow or rng.random() < 0.3:
+                    inset["follow_symlinks"] = tree.follow
+            if inset:
                 cfg = os.path.join(sb, "cfg", "s.yaml")
-                fsrun.write_yaml(cfg, {"input": {"auto_exclude_directories_without_cmake": False}})
+                fsrun.write_yaml(cfg, {"input": inset})
                 argv += ["-s", cfg]
             spec = gitmatch.Spec([])
             ref = reference_walk(tree, inp, recursive, auto, spec)
